@@ -317,7 +317,26 @@ func Run(c *hx.Ctx) {
 		sgCases(c)
 		return
 	}
-	if len(c.Args) >= 1 && c.Args[0] == "e2e" { // only the end-to-end kind (4 args: one given plan)
+	if len(c.Args) >= 1 && c.Args[0] == "pgen" { // only the pooled-proxy-object generation kind (4 args: one given case)
+		if len(c.Args) == 4 {
+			old := runtime.GOMAXPROCS(1)
+			pgRun(c, c.Args[1], c.Args[2], c.Args[3])
+			runtime.GOMAXPROCS(old)
+			return
+		}
+		pgCases(c)
+		return
+	}
+	if len(c.Args) >= 1 && c.Args[0] == "h2tbl" { // only the HTTP/2 client stream table kind (3 args: one given script)
+		if len(c.Args) == 3 {
+			b, _ := strconv.ParseUint(c.Args[1], 10, 32)
+			h2tRun(c, uint32(b), strings.Split(c.Args[2], ","))
+			return
+		}
+		h2tCases(c)
+		return
+	}
+	if len(c.Args) >= 1 && (c.Args[0] == "e2e" || c.Args[0] == "e2ex") { // only the end-to-end kinds (4 / 5 args: one given plan)
 		runE2E(c, hx.NewRng(c.Seed^0xe2e0e2e))
 		return
 	}
@@ -410,4 +429,8 @@ func Run(c *hx.Ctx) {
 	h2wCases(c)
 	// 7. stream objects living in pooled buffers: destroy / deliver order of the receiver wrapper against the real HTTP/1 pool (sgen.go)
 	sgCases(c)
+	// 8. HTTP/2 client stream table: concurrent requests on one connection, answers frame by frame in any order (h2tbl.go)
+	h2tCases(c)
+	// 8. pooled downStream object: late timer callbacks against the generation tag (pgen.go)
+	pgCases(c)
 }
